@@ -76,6 +76,14 @@ class Eval:
         if o == "mul" and i["ops"][1][0] == "c":
             x = self.lf(i["ops"][0], depth + 1)
             return lf_scale(x, int(i["ops"][1][1])) if x is not None else None
+        if o == "load" and self.parent is None and getattr(self.c5.b, "const_fields", None):
+            a = self.am.of(i["ops"][0])
+            if a is not None and a.segs[-1].off is not None and a.root == ("arg", self.c5.h) and len(a.segs) == 2 and \
+                    a.segs[0].off == self.c5.b.ctx_off:
+                k = (a.segs[-1].off, i.get("size"))
+                c = self.c5.b.const_fields.get(k)
+                if c is not None and k != tuple(self.c5.b.fields.get("offset", (None, None))):
+                    return lf_const(c)
         return atom(("i", f.key, i["id"]) if self.parent is not None else ("i", i["id"]))
 
     def ptr(self, op, depth=0):
